@@ -145,7 +145,7 @@ struct St {
 	std::string svc_name;
 	qb_loop_t *loop = NULL;
 	qb_ipcs_service_t *svc = NULL;
-	bool hostile_done = false;
+	bool hostile_done = false, hostile_task = false;
 	uint64_t server_polls = 0;          // epoll_wait calls of the server's loop (= loop iterations)
 	bool svc_destroyed = false, server_dead = false, server_started = false, server_finished = false, server_will_die = false;
 	int64_t server_death_ns = -1;     // virtual time at which the server process died
@@ -338,6 +338,8 @@ static int32_t cb_accept(qb_ipcs_connection_t *sc, uid_t uid, gid_t gid)
 	for (int k = 0; k < G.nclients; k++) if (G.cl[k].spid == peer) c.client = k;
 	ev(410, c.id, c.client);
 	Proc *pp = proc_get(peer);
+	if (!pp && which == 5)
+		VIOL(5, "accept-wrong-credentials", "qb_ipcs_connection_accept", "accept callback got pid %d uid %u gid %u: credentials of no process that connected", peer, (unsigned)uid, (unsigned)gid);
 	if (pp) {
 		if (pp->uid != uid || pp->gid != gid)
 			VIOL(5, "accept-wrong-credentials", "qb_ipcs_connection_accept", "accept callback got uid %u gid %u, the peer (sim pid %d) has uid %u gid %u",
@@ -355,6 +357,7 @@ static int32_t cb_accept(qb_ipcs_connection_t *sc, uid_t uid, gid_t gid)
 		res = -G.accept_policy[c.client];
 	}
 	if (c.client < 0 && which == 6) res = 0;      // the hostile peer may be let in (it then abuses the raw channels)
+	if (c.client < 0 && which == 5) res = -EACCES; // C05: the hand-written peer is only there for its credentials; it is refused
 	if (which == 5 && c.client >= 0 && G.plant[c.client]) plant_file(c);
 	fire(T_ACCEPT, &c);
 	c.accept_ok = res == 0;
@@ -618,7 +621,7 @@ static void tick(void *)
 		do_server_op(o, NULL);
 	}
 	// the service stays up until the hostile peer has finished what it set out to do as well
-	if (which == 6 && !G.hostile_done) all = false;
+	if (G.hostile_task && !G.hostile_done) all = false;
 	if (all && G.shutdown_tick < 0) G.shutdown_tick = G.ticks + 3;
 	if (G.shutdown_tick >= 0 && G.ticks >= G.shutdown_tick) {
 		// orderly end: drop what the application still holds, destroy the service, let the loop drain
@@ -1038,7 +1041,8 @@ static void hostile_main(void *)
 			// libqb binds the abstract name with the full size of sockaddr_un: the trailing NULs are part of the name
 			if (simk_connect(fd, (struct sockaddr *)&a, (socklen_t)sizeof a) != 0) { simk_close(fd); fd = -1; count(p_hostile_refused); break; }
 			int on = 1;
-			simk_setsockopt(fd, SOL_SOCKET, SO_PASSCRED, &on, sizeof on);
+			// (op.a[0] != 0: a peer that does not ask for credentials on its own socket, unlike libqb's client)
+			if (op.a[0] == 0) simk_setsockopt(fd, SOL_SOCKET, SO_PASSCRED, &on, sizeof on);
 			count(p_hostile_conn); count(p_hostile_raw);
 			break; }
 		case K_H_SEND_PREFIX:
@@ -1486,6 +1490,17 @@ static void gen(const char *prop, RunSpec &spec)
 		else p.add(0, K_S_DESTROY, T_TICK, -1, r.range(2, 30), 0, 0, r.range(1, 120));
 	}
 	if (server_dies) p.add(0, K_S_DIE, r.chance(1, 2) ? T_TICK : r.chance(1, 2) ? T_MSG : T_CREATED, -1, r.range(0, 12));
+	if (w == 5 && r.chance(1, 3)) {
+		// a peer that is not libqb's client: raw socket, no SO_PASSCRED of its own, a valid connection request sent at once
+		// (the credentials the accept callback sees are then whatever the service socket arranged for)
+		int nh = (int)r.range(1, 4);
+		for (int n = 0; n < nh; n++) {
+			p.add(4, K_H_CONNECT, 1);
+			p.add(4, K_H_SEND_PREFIX, 24, 0, r.chance(1, 4) ? (int64_t)r.range(1, 12) : 0, 0);
+			p.add(4, K_H_SLEEP, r.range(100, 20000));
+			p.add(4, K_H_CLOSE);
+		}
+	}
 	if (w == 6) {
 		int nh = (int)r.range(1, 10);
 		for (int n = 0; n < nh; n++) {
@@ -1604,7 +1619,10 @@ static void run(const char *prop, const RunSpec &spec)
 		if (k < G.nclients) G.cl[k].task = task_create(G.cl[k].spid, client_main, &G.cl[k], "client");
 		else { G.cl[k].done = true; task_create(base + 90 + k, [](void *) {}, NULL, "idle"); }
 	}
-	if (which == 6) task_create(G.hostile_spid, hostile_main, NULL, "hostile");
+	// C06: the hostile peer; C05: a hand-written peer that speaks the handshake without libqb's client (if the plan has one)
+	G.hostile_task = which == 6;
+	if (which == 5) for (size_t i = 0; i < p.ops.size(); i++) if (p.ops[i].task == 4) G.hostile_task = true;
+	if (G.hostile_task) task_create(G.hostile_spid, hostile_main, NULL, "hostile");
 #ifdef IPC_ACC
 	g_access_hook = acc_hook;
 #endif
